@@ -739,3 +739,59 @@ def variants(world, tier="quick", only=None):
     if only:
         out = [v for v in out if any(o in v.name for o in only)]
     return out
+
+
+class BvConstantPredicateVariant(AccessorVariant):
+    """FNode.is_bv_constant(value, width) on a bit-vector constant built from (v, w): true exactly when every argument given
+    agrees with what the node was built from (a width alone is compared too); on a constant of another kind: false."""
+    prop_ids = ("C04",)
+
+    def __init__(self, world, with_value, with_width, on_bv=True):
+        self.with_value, self.with_width, self.on_bv = with_value, with_width, on_bv
+        self.v, self.w = z3.Const("built_value", I), z3.Const("built_width", I)
+        AccessorVariant.__init__(self, world, "is_bv_constant", S.BV_CONSTANT if on_bv else S.INT_CONSTANT,
+                                 (self.v, self.w) if on_bv else self.v, None, nargs=0)
+        self.name = "accessor:is_bv_constant[%s%s%s]" % ("value" if with_value else "", "+width" if with_width else "",
+                                                        "" if on_bv else " on an Int constant") if (with_value or with_width) else \
+            "accessor:is_bv_constant[no arguments%s]" % ("" if on_bv else " on an Int constant")
+
+    def setup(self, ex):
+        fn, a, kw = AccessorVariant.setup(self, ex)
+        ex.assume(z3.And(self.w >= 1, self.v >= 0, self.v < S.pow2(self.w)))
+        self.qv, self.qw = z3.Const("asked_value", I), z3.Const("asked_width", I)
+        ex.assume(self.qw >= 1)
+        kw = {}
+        if self.with_value:
+            kw["value"] = self.qv
+        if self.with_width:
+            kw["width"] = self.qw
+        return fn, [], kw
+
+    def check(self, ex, outcome):
+        kind, r = outcome
+        if kind == "raise":
+            return [("no-exception", z3.BoolVal(False))]
+        t = ex.truth(r) if not isinstance(r, bool) else z3.BoolVal(r)
+        t = t if is_z3(t) else z3.BoolVal(bool(t))
+        if not self.on_bv:
+            return [("another-kind-of-constant-is-not-a-bit-vector-constant", z3.Not(t))]
+        conds = []
+        if self.with_value:
+            conds.append(self.qv == self.v)
+        if self.with_width:
+            conds.append(self.qw == self.w)
+        return [("true-exactly-when-the-given-value-and-width-are-the-node's", t == (z3.And(conds) if conds else z3.BoolVal(True)))]
+
+
+_base_variants4z = variants
+
+
+def variants(world, tier="quick", only=None):
+    out = _base_variants4z(world, tier, None)
+    for wv, ww in ((False, False), (True, False), (False, True), (True, True)):
+        out.append(BvConstantPredicateVariant(world, wv, ww))
+    out.append(BvConstantPredicateVariant(world, False, True, on_bv=False))
+    out.append(BvConstantPredicateVariant(world, False, False, on_bv=False))
+    if only:
+        out = [v for v in out if any(o in v.name for o in only)]
+    return out
